@@ -250,37 +250,43 @@ val open_fgets_size : z
 
 val conf_path_max : z
 
-type str = z list
+val list_eqb : z list -> z list -> bool
 
-val list_eqb : str -> str -> bool
+val ci_eq : z list -> z list -> bool
 
-val ci_eq : str -> str -> bool
+val beg_ci : z list -> z list -> bool
 
-val beg_ci : str -> str -> bool
+val has_byte : z -> z list -> bool
 
-val has_byte : z -> str -> bool
+val s_include : z list
 
-val s_include : str
+val s_preproc : z list
 
-val s_preproc : str
+val s_begin : z list
 
-val s_begin : str
+val s_end_sp : z list
 
-val s_end_sp : str
+val s_end : z list
 
-val s_end : str
+val s_null : z list
 
-val s_null : str
+val s_preproc_tmpl : z list
 
-val s_preproc_tmpl : str
+val cstring : buf -> z list res
 
-val cstring : buf -> str res
+val put_at : buf -> cell list -> buf res
 
-val put_str : buf -> str -> buf res
+val put_str : buf -> z list -> buf res
+
+val chomp_line : buf -> buf res
+
+val get_word_line : z -> buf -> z list option res
+
+val get_pword_line : z -> buf -> z option res
 
 type stream = { sdata : z list; seof : bool }
 
-val take_line : nat -> z list -> z list * z list
+val take_line : z -> z list -> z list * z list
 
 val ends_nl : z list -> bool
 
@@ -308,21 +314,21 @@ type hfun =
 type harg =
 | HBegin
 | HEnd
-| HText of str
+| HText of z list
 
 type event =
 | EvCall of hfun * harg * z * z
-| EvSpawn of str
+| EvSpawn of z list
 
-type ctx_t = { cx_name : str option; cx_fun : hfun }
+type ctx_t = { cx_name : z list option; cx_fun : hfun }
 
 type cst_t = { cs_id : z; cs_state : z }
 
-type fst_t = { f_fp : stream option; f_path : str option;
-               f_outfile : str option; f_line : z; f_skip : bool;
+type fst_t = { f_fp : stream option; f_path : z list option;
+               f_outfile : z list option; f_line : z; f_skip : bool;
                f_preproc : bool; f_owned : bool }
 
-type bi_t = str option
+type bi_t = z list option
 
 val zero_ctx : ctx_t
 
@@ -351,23 +357,23 @@ val null_table : 'a1 table
 
 val conf0 : 'a1 -> 'a1 conf
 
-val register_builtin : 'a1 conf -> str -> ('a1 conf * z) res
+val register_builtin : 'a1 conf -> z list -> ('a1 conf * z) res
 
-val predefined : str list
+val predefined : z list list
 
-val register_builtins : 'a1 conf -> str list -> 'a1 conf res
+val register_builtins : 'a1 conf -> z list list -> 'a1 conf res
 
 val fresh_table : 'a1 -> z -> 'a1 table
 
 val init_subsystem : 'a1 conf -> 'a1 conf res
 
-val register_context : 'a1 conf -> str -> z -> ('a1 conf * z) res
+val register_context : 'a1 conf -> z list -> z -> ('a1 conf * z) res
 
 val register_fstate : 'a1 conf -> fst_t -> 'a1 conf res
 
 val register_context_state : 'a1 conf -> z -> 'a1 conf res
 
-val free_names : ('a1 -> str option) -> 'a1 table -> z -> nat -> z res
+val free_names : ('a1 -> z list option) -> 'a1 table -> z -> nat -> z res
 
 val drop_block : 'a1 table -> 'a1 table
 
@@ -389,51 +395,54 @@ val call :
   (z -> harg -> z -> 'a1 -> z * 'a1) -> 'a2 conf -> 'a1 -> z -> harg -> z ->
   ((z * 'a1) * event list) res
 
-val name_to_id : 'a1 conf -> str -> z -> nat -> z res
+val name_to_id : 'a1 conf -> z list -> z -> nat -> z res
 
 val ctx_begin :
-  (z -> harg -> z -> 'a1 -> z * 'a1) -> 'a2 conf -> 'a1 -> str -> (('a2
+  (z -> harg -> z -> 'a1 -> z * 'a1) -> 'a2 conf -> 'a1 -> z list -> (('a2
   conf * 'a1) * event list) res
 
 val ctx_end :
   (z -> harg -> z -> 'a1 -> z * 'a1) -> 'a2 conf -> 'a1 -> z -> (('a2
   conf * 'a1) * event list) res
 
-val magic : str -> str
+val magic : z list -> z list
 
 val open_file :
-  (str -> z list option) -> str -> str option -> stream option res
+  (z list -> z list option) -> z list -> z list option -> stream option res
 
 val do_expand :
-  (str -> 'a1 -> (str * 'a1) * str list) -> 'a1 conf -> buf -> (('a1
+  (z list -> 'a1 -> (z list * 'a1) * z list list) -> 'a1 conf -> buf -> (('a1
   conf * buf) * event list) res
 
 val parse_line :
-  (z -> harg -> z -> 'a1 -> z * 'a1) -> (str -> 'a2 -> (str * 'a2) * str
-  list) -> (str -> z list option) -> (str -> z list option) -> str -> 'a2
-  conf -> 'a1 -> buf -> ((('a2 conf * 'a1) * buf) * event list) res
+  (z -> harg -> z -> 'a1 -> z * 'a1) -> (z list -> 'a2 -> (z list * 'a2) * z
+  list list) -> (z list -> z list option) -> (z list -> z list option) -> z
+  list -> 'a2 conf -> 'a1 -> buf -> ((('a2 conf * 'a1) * buf) * event list)
+  res
 
 val skip_long : nat -> stream -> buf -> (stream * buf) res
 
 val set_fp : fst_t -> stream -> z -> fst_t
 
 val parse_loop :
-  (z -> harg -> z -> 'a1 -> z * 'a1) -> (str -> 'a2 -> (str * 'a2) * str
-  list) -> (str -> z list option) -> (str -> z list option) -> str -> nat ->
-  'a2 conf -> 'a1 -> buf -> event list -> (('a2 conf * 'a1) * event list) res
+  (z -> harg -> z -> 'a1 -> z * 'a1) -> (z list -> 'a2 -> (z list * 'a2) * z
+  list list) -> (z list -> z list option) -> (z list -> z list option) -> z
+  list -> nat -> bool -> 'a2 conf -> 'a1 -> buf -> event list -> (('a2
+  conf * 'a1) * event list) res
 
 val parse :
-  (z -> harg -> z -> 'a1 -> z * 'a1) -> (str -> 'a2 -> (str * 'a2) * str
-  list) -> (str -> z list option) -> (str -> z list option) -> str -> nat ->
-  'a2 conf -> 'a1 -> str -> ((('a2 conf * 'a1) * event list) * bool) res
+  (z -> harg -> z -> 'a1 -> z * 'a1) -> (z list -> 'a2 -> (z list * 'a2) * z
+  list list) -> (z list -> z list option) -> (z list -> z list option) -> z
+  list -> nat -> 'a2 conf -> 'a1 -> z list -> ((('a2 conf * 'a1) * event
+  list) * bool) res
 
 type op =
 | OInit
 | OFree
-| ORegCtx of str * z
-| ORegBuiltin of str
-| OParse of nat * str
-| OOpen of str
+| ORegCtx of z list * z
+| ORegBuiltin of z list
+| OParse of nat * z list
+| OOpen of z list
 
 type opres =
 | RUnit
@@ -442,9 +451,10 @@ type opres =
 | ROpen of bool
 
 val step :
-  'a2 -> (z -> harg -> z -> 'a1 -> z * 'a1) -> (str -> 'a2 ->
-  (str * 'a2) * str list) -> (str -> z list option) -> (str -> z list option)
-  -> str -> ('a2 conf * 'a1) -> op -> (('a2 conf * 'a1) * opres) res
+  'a2 -> (z -> harg -> z -> 'a1 -> z * 'a1) -> (z list -> 'a2 -> (z
+  list * 'a2) * z list list) -> (z list -> z list option) -> (z list -> z
+  list option) -> z list -> ('a2 conf * 'a1) -> op -> (('a2
+  conf * 'a1) * opres) res
 
 val s32 : z -> z
 
@@ -462,31 +472,31 @@ val find_file :
 
 val fresh_handler : z -> harg -> z -> z -> z * z
 
-type vstore = (str * str) list
+type vstore = (z list * z list) list
 
-val str_ltb : str -> str -> bool
+val str_ltb : z list -> z list -> bool
 
-val store_put : vstore -> str -> str -> vstore
+val store_put : vstore -> z list -> z list -> vstore
 
-val split_sp : str -> str * str
+val split_sp : z list -> z list * z list
 
-val ends_with_paren : str -> bool
+val ends_with_paren : z list -> bool
 
-val expand_simple : str -> vstore -> (str * vstore) * str list
+val expand_simple : z list -> vstore -> (z list * vstore) * z list list
 
 val vstore_blocks : vstore -> z
 
-type afs = (str * z list) list
+type afs = (z list * z list) list
 
-val afs_lookup : afs -> str -> z list option
+val afs_lookup : afs -> z list -> z list option
 
 type iconf = vstore conf
 
 val iconf0 : iconf
 
-val ipreproc : bool -> str -> z list option
+val ipreproc : bool -> z list -> z list option
 
 val istep :
-  afs -> bool -> str -> (iconf * z) -> op -> ((iconf * z) * opres) res
+  afs -> bool -> z list -> (iconf * z) -> op -> ((iconf * z) * opres) res
 
 val ifind : z -> z option -> (z * bool) list -> ff_out option res
